@@ -258,7 +258,10 @@ def run(pid, tier, seed):
             os.makedirs(d)
             with open(os.path.join(d, "n.log"), "w") as f:
                 f.write(blob)
-            return common.run_s4(["--tz-offset=" + fbs, "--color", "never", "-u", "-d", "%Y%m%dT%H%M%S%.9f", "n.log"], cwd=d,
+            # the read block size is varied as well: at 256..4096 bytes a block boundary falls inside a timestamp (or inside
+            # the text before it) every few lines, at every position (every line here is shorter than the smallest size)
+            B = [65536, 256, 300, 1000, 4096][sum((name + fbs).encode()) % 5]
+            return common.run_s4(["--tz-offset=" + fbs, "--color", "never", "--blocksz", str(B), "-u", "-d", "%Y%m%dT%H%M%S%.9f", "n.log"], cwd=d,
                                  timeout=120, tz_args=False)
 
         t0 = time.time()
